@@ -215,7 +215,7 @@ def std_facts(prog, f, g=None, extra_kill=None, attr_kill=None, expand=True):
 
   def expanded_test(node, kinds=None):
     """The branch condition with boolean temporaries replaced by their (must-)definitions."""
-    kinds = kinds or (ast.BoolOp, ast.Compare, ast.UnaryOp, ast.Call, ast.Attribute, ast.Name, ast.Subscript)
+    kinds = kinds or (ast.BoolOp, ast.Compare, ast.UnaryOp, ast.Call, ast.Attribute, ast.Name, ast.Subscript, ast.IfExp)
     defs = {f_[1]: f_[2] for f_ in facts1[node.id] if f_[0] == 'def'}
     changed = [False]
 
@@ -259,7 +259,7 @@ def std_facts(prog, f, g=None, extra_kill=None, attr_kill=None, expand=True):
         out.extend(('c', tx, p) for tx, p in decompose(t, kind == 'T'))
       if node.id not in cache_b:
         try:
-          cache_b[node.id] = expanded_test(node, (ast.BoolOp, ast.Compare, ast.UnaryOp))
+          cache_b[node.id] = expanded_test(node, (ast.BoolOp, ast.Compare, ast.UnaryOp, ast.IfExp))
         except Exception:
           cache_b[node.id] = None
       tb = cache_b[node.id]
@@ -268,6 +268,33 @@ def std_facts(prog, f, g=None, extra_kill=None, attr_kill=None, expand=True):
     return out
 
   facts2 = g.must_facts(edge_facts2, kill)
+  # Path sensitivity at two-way joins: if one side knows (c, p) + F and the other (c, not p), then `(c != p) or F` holds after the join.
+  join_gen = {}
+  for b in g.succ:
+    preds = [(a, k) for a, k in g.pred.get(b, []) if facts2.get(a) is not None]
+    if len(preds) != 2 or any(g.nodes[a].kind in ('for', 'while') and k in ('loop',) for a, k in preds):
+      continue
+    outs = []
+    for a, k in preds:
+      node_a = g.nodes[a]
+      surv = frozenset(f_ for f_ in facts2[a] if not kill(node_a, f_))
+      outs.append(surv | frozenset(edge_facts2(node_a, k)))
+    conds = [{(f_[1], f_[2]) for f_ in o if f_[0] == 'c'} for o in outs]
+    gen = set()
+    for i_ in (0, 1):
+      mine, other = conds[i_], conds[1 - i_]
+      split = [(t_, p_) for t_, p_ in mine if (t_, not p_) in other]
+      extra = [(t_, p_) for t_, p_ in mine if (t_, p_) not in other and (t_, not p_) not in other and ' or ' not in t_][:8]
+      for ct, cp in split[:3]:
+        for ft, fp in extra:
+          # on this side: c == cp and f == fp; on the other side: c == not cp
+          lit_c_other = '(%s)' % ct if not cp else 'not (%s)' % ct
+          lit_f = '(%s)' % ft if fp else 'not (%s)' % ft
+          gen.add(('c', '%s or %s' % (lit_c_other, lit_f), True))
+    if gen:
+      join_gen[b] = frozenset(list(gen)[:24])
+  if join_gen:
+    facts2 = g.must_facts(edge_facts2, kill, extra_in=join_gen)
   g.expanded = cache      # test node id -> condition with temporaries replaced by their definitions
   g.expanded_bool = cache_b   # ... with only boolean-valued temporaries replaced
   return g, facts2
@@ -570,6 +597,15 @@ class BoolForm:
       return lambda env, fs=fs: any(f(env) for f in fs)
     if isinstance(e, ast.Call) and u(e.func) == 'bool' and len(e.args) == 1:
       return self.compile(e.args[0])
+    if isinstance(e, ast.IfExp):
+      t, a, b = self.compile(e.test), self.compile(e.body), self.compile(e.orelse)
+      return lambda env, t=t, a=a, b=b: a(env) if t(env) else b(env)
+    if isinstance(e, (ast.List, ast.Tuple, ast.Set, ast.Dict)):
+      n_el = len(e.keys) if isinstance(e, ast.Dict) else len(e.elts)
+      if not any(isinstance(x, ast.Starred) for x in getattr(e, 'elts', [])):
+        return lambda env, c=n_el > 0: c
+    if isinstance(e, ast.Constant) and e.value in (None, '', 0):
+      return lambda env: False
     if isinstance(e, ast.Compare) and len(e.ops) == 1 and \
         isinstance(e.ops[0], (ast.NotIn, ast.NotEq, ast.IsNot)):
       pos = {ast.NotIn: ast.In, ast.NotEq: ast.Eq, ast.IsNot: ast.Is}[type(e.ops[0])]
@@ -697,6 +733,23 @@ def card_cases(fs, M, cases=(0, 1, 2, 3)):
       if any(v is True for v in vs):
         return True
       return False if all(v is False for v in vs) else None
+    if isinstance(e, ast.Compare) and len(e.ops) == 1 and isinstance(e.ops[0], (ast.Is, ast.IsNot)) and u(e.comparators[0]) == 'None':
+      def noneness(x):
+        # True = is None, False = is not None, None = unknown
+        if isinstance(x, ast.Constant):
+          return x.value is None
+        if isinstance(x, ast.IfExp):
+          t = ev(x.test, c)
+          if t is None:
+            return None
+          return noneness(x.body if t else x.orelse)
+        if isinstance(x, ast.Subscript) and u(x.value) == M:
+          return False      # an element of the match list (selectors are strings)
+        return None
+      nn = noneness(e.left)
+      if nn is None:
+        return None
+      return nn if isinstance(e.ops[0], ast.Is) else (not nn)
     if isinstance(e, ast.Compare) and len(e.ops) == 1:
       l, r = e.left, e.comparators[0]
 
